@@ -224,8 +224,15 @@ func HarnessResponsePassthrough() {
 	body1 := vBytes("body1", vChoose("len1", 3))
 	body2 := vBytes("body2", vChoose("len2", 2))
 	early := vChoose("early_hints", 2) == 1
+	// a HEAD request: the target announces the length of the body it would send and sends none
+	head := vChoose("head_request", 2) == 1
 	inner := http.HandlerFunc(func(w http.ResponseWriter, r *http.Request) {
 		w.Header()["X-Custom"] = []string{hdr}
+		if head {
+			w.Header()["Content-Length"] = []string{"21"}
+			w.WriteHeader(status)
+			return
+		}
 		if early {
 			w.WriteHeader(103)
 		}
@@ -244,11 +251,20 @@ func HarnessResponsePassthrough() {
 	h := srv.buildHandler()
 	u := &url.URL{Path: "/x"}
 	vRequestURI[u] = "/x"
-	req := &http.Request{Method: "GET", URL: u, Host: "example.com", Header: http.Header{}, RemoteAddr: "1.2.3.4:5", Proto: "HTTP/1.1"}
+	method := "GET"
+	if head {
+		method = "HEAD"
+	}
+	req := &http.Request{Method: method, URL: u, Host: "example.com", Header: http.Header{}, RemoteAddr: "1.2.3.4:5", Proto: "HTTP/1.1"}
 	client := vNewRecorder()
 	h.ServeHTTP(client, req)
 	client.finish()
 	vAssert(client.status == status, "passthrough: the client receives the target's final status")
+	if head {
+		cl := client.Header()["Content-Length"]
+		vAssert(len(client.body) == 0 && len(cl) == 1 && cl[0] == "21", "passthrough: the answer to a HEAD request keeps the Content-Length the target announced")
+		return
+	}
 	vAssert(string(client.body) == string(body1)+string(body2), "passthrough: the client receives the target's body")
 	got := client.Header()["X-Custom"]
 	vAssert(len(got) == 1 && got[0] == hdr, "passthrough: the client receives the target's headers")
